@@ -55,7 +55,7 @@ def step (line : String) : String :=
       s!"C {cfgsStr cs} | L {liveStr cs ds}"
     | _, _, _, _ => "bad-op"
   | ["sel", force, mo, mp, ud, cfgs] =>
-    match mo.toNat?, mp.toNat?, fromHex ud, parseList cfgs with
+    match mo.toNat?, mp.toNat?, fromHex ud, (cfgs.splitOn ",").mapM fromHex with
     | some mo, some mp, some ud, some cs =>
       let o : CliOpts := { force := force == "1", maxConfigsOption := mo, maxConfigsProject := mp, userDefines := ud }
       s!"M {o.maxConfigs} | A {cfgsStr (analysed o cs)}"
